@@ -130,7 +130,9 @@ def build_model():
 def frame(op, payload=b"", mask=False, rsv=0):
     b0 = 0x80 | rsv | op
     n = len(payload)
-    assert n < 126
+    if n >= 126:
+        # big frame; masked with the all-zero key (payload unchanged)
+        return bytes([b0, (0x80 if mask else 0) | 127]) + struct.pack("!Q", n) + (b"\x00\x00\x00\x00" if mask else b"") + payload
     if mask:
         m = b"\x11\x22\x33\x44"
         body = bytes(c ^ m[i % 4] for i, c in enumerate(payload))
@@ -167,8 +169,15 @@ def frame_letter(op, p):
     return {1: "T", 2: "T", 0: "T", 9: "P", 10: "Q"}.get(op, "?%d" % op)
 
 
-def peer_bytes(tok, mask):
+def is_outside_model(cfg, toks):
+    """histories the Gallina model does not cover: write-side back-pressure, messages above the read queue limit"""
+    return bool(cfg.wlimit) or any(t in ("wp", "wr") or (len(t) == 2 and t[0] in "pq" and t[1] == "B") for t in toks)
+
+
+def peer_bytes(tok, mask, big=0):
     k = tok[1]
+    if k == "B":
+        return frame(2, b"x" * big, mask)      # one binary message just above the read queue's flow-control limit
     if k == "t":
         return frame(1, b"hi", mask)
     if k == "p":
@@ -343,6 +352,14 @@ class Session:
         self.applied = []
         self.advanced = False
         self.stall = 0.0              # clock advances made while callbacks were ready (a stalled loop, not waiting)
+        self.pending_peer = []        # peer frames withheld while the transport has paused reading (like a socket)
+        self.big = ws._reader._limit + 1
+        orig_resume = tr.resume_reading
+
+        def _resume():
+            orig_resume()
+            self.loop.call_soon(self._flush_pending)
+        tr.resume_reading = _resume
         orig_close = ws.close
         sess = self
 
@@ -362,12 +379,23 @@ class Session:
     def _deliver(self, data, tok):
         if self.tr.closed:
             return
+        if not self.tr.reading or self.pending_peer:
+            # a transport that honours pause_reading(): later reads are withheld until resume_reading()
+            self.pending_peer.append((data, tok))
+            return
+        self._hand_over(data, tok)
+
+    def _hand_over(self, data, tok):
         if tok[1] == "c":
-            # counted only if the protocol still feeds the reader (not after a protocol error / close)
             self.peer_close_codes.append(int(tok[2:]))
         if any(op == 8 for op, _ in parse_frames(bytes(self.tr.buf[self.hlen:]))):
             self.peer_after_our_close += 1
         self.proto.data_received(data)
+
+    def _flush_pending(self):
+        while self.pending_peer and self.tr.reading and not self.tr.closed:
+            data, tok = self.pending_peer.pop(0)
+            self._hand_over(data, tok)
 
     def apply(self, tok):
         """Apply one stimulus; returns False if it is not applicable (then nothing happened)."""
@@ -389,9 +417,9 @@ class Session:
             self.tasks[t] = loop.create_task(coro)
             self.ops[t] = tok[2]
         elif k == "p":
-            self._deliver(peer_bytes(tok, self.cfg.side == "S"), tok)
+            self._deliver(peer_bytes(tok, self.cfg.side == "S", self.big), tok)
         elif k == "q":
-            loop.call_soon(self._deliver, peer_bytes(tok, self.cfg.side == "S"), tok)
+            loop.call_soon(self._deliver, peer_bytes(tok, self.cfg.side == "S", self.big), tok)
         elif k == "d":
             self.tr.peer_close(None)
         elif k == "w":
@@ -544,7 +572,7 @@ class Session:
             ",".join(self._task_state(i, tmo) for i in range(NTASKS)))
 
     # -- the property, evaluated on the implementation only
-    def oracle(self, final=False):
+    def oracle(self, final=False, silent_epilogue=False):
         """-> list of (kind, text, extra)"""
         ws, tr = self.ws, self.tr
         bad = []
@@ -569,6 +597,23 @@ class Session:
             if final and not st.startswith(("D", "I")):
                 bad.append(("task_stuck", "task %d (%s) never finished although every timer expired and the connection was dropped: %s"
                             % (i, self.ops[i], st), {}))
+        # read-side flow control: an empty queue with the transport still paused can never resume (resume happens
+        # only when a message is taken from the queue), so frames the peer has sent are never read
+        if self.pending_peer and not tr.reading and not tr.closed and not ws._reader._buffer:
+            bad.append(("read_paused_stuck", "reader queue is empty but the transport is still paused: %d peer frame(s) %s will never be read"
+                        % (len(self.pending_peer), [t for _, t in self.pending_peer]), {}))
+        # heartbeat: while the session is open some heartbeat machinery must be pending (ping timer, pong timer or
+        # the coalesced reset), otherwise a silent peer is never detected
+        if self.cfg.hb is not None and not ws._closed and not ws._closing and not tr.closed:
+            def _armed(h):
+                return h is not None and not h._cancelled and (getattr(h, "_scheduled", False) or h in self.loop._ready)
+            if not (_armed(ws._heartbeat_cb) or _armed(ws._pong_response_cb)
+                    or (ws._need_heartbeat_reset and ws._heartbeat_reset_handle is not None)):
+                bad.append(("heartbeat_dead", "heartbeat enabled and session open, but neither the ping timer, the pong timer nor a "
+                            "heartbeat reset is pending: a silent peer is never detected", {}))
+        if silent_epilogue and self.cfg.hb is not None and not tr.closed and not (ws._closed or ws._closing):
+            bad.append(("heartbeat_dead", "heartbeat %.4fs: the peer was silent for %.1fs but the session was not closed with 1006"
+                        % (self.cfg.hb * UNIT, 25.0), {}))
         if ws._closed and not self.active_close:
             if not tr.closed:
                 bad.append(("transport_open", "session closed (no close() in progress) but the transport is still open", {}))
@@ -631,7 +676,9 @@ def run_history(world, cfg, tokens, online=True):
             ok = s.apply(tok)
             if tok == "/":
                 snaps.append(s.snapshot())
-                for kind, text, extra in s.oracle(final=(i == len(toks) - 1)):
+                # the snapshot before the final drop: the peer has been silent for the two epilogue advances
+                silent = (i == len(toks) - 3) and not s.pending_peer
+                for kind, text, extra in s.oracle(final=(i == len(toks) - 1), silent_epilogue=silent):
                     viol.append((kind, text, extra, len(s.applied)))
         applied = list(s.applied)
         extra_obs = {"peer_close_codes": list(s.peer_close_codes)}
@@ -682,6 +729,28 @@ def backpressure_history(rng):
         else:
             toks.append("a%d" % rng.choice([4, 12]))
         if rng.random() < 0.6:
+            toks.append("/")
+    return toks
+
+
+def bigmsg_history(rng):
+    """one message above the read queue limit (reading pauses), later peer frames in later reads: oracle-only"""
+    toks = []
+    for _ in range(rng.randint(3, 8)):
+        r = rng.random()
+        if r < 0.25:
+            toks.append(rng.choice(["pB", "qB"]))
+        elif r < 0.55:
+            toks.append("c0r")
+        elif r < 0.75:
+            toks.append(rng.choice(["pt", "pp", "pc1000", "pc4001", "qc3000"]))
+        elif r < 0.85:
+            toks.append("c1k1000")
+        elif r < 0.92:
+            toks.append("a%d" % rng.choice([4, 12]))
+        else:
+            toks.append(rng.choice(["d", "x0"]))
+        if rng.random() < 0.65:
             toks.append("/")
     return toks
 
@@ -753,7 +822,7 @@ def check_batch(ctx, exe, world, batch, suite):
     if exe is None:
         msn = [None] * len(results)       # model runner unavailable: implementation-only search
     else:
-        idx = [i for i, (c, a, _, _) in enumerate(results) if not (c.wlimit or "wp" in a or "wr" in a)]
+        idx = [i for i, (c, a, _, _) in enumerate(results) if not is_outside_model(c, a)]
         got = model_snaps(exe, [(results[i][0], results[i][1]) for i in idx])
         msn = [None] * len(results)       # histories with back-pressure are outside the model: oracle only
         for i, g in zip(idx, got):
@@ -851,6 +920,10 @@ def run(ctx):
         bp = [(Cfg("S", ctmo=9, wlimit=True), backpressure_history(rng)) for _ in range(150 if ctx.quick else 3000)]
         n = check_batch(ctx, None, world, bp, "backpressure-oracle-only")
         ctx.count("suite:backpressure-oracle-only", n)
+        # 5. read-side flow control: messages above the queue limit, outside the model, implementation-only search
+        bm = [(Cfg("SC"[i % 2], ctmo=9, hb=rng.choice([None, None, 20])), bigmsg_history(rng)) for i in range(60 if ctx.quick else 1500)]
+        n = check_batch(ctx, None, world, bm, "bigmsg-oracle-only")
+        ctx.count("suite:bigmsg-oracle-only", n)
         if batch:
             ctx.sample({"suite": "random-histories", "cfg": batch[-1][0].to_json(), "tokens": batch[-1][1]})
             ctx.sample({"suite": "random-histories", "cfg": batch[0][0].to_json(), "tokens": batch[0][1]})
@@ -866,11 +939,11 @@ def replay(ctx, case):
         applied, snaps, viol, obs = run_history(world, cfg, case["tokens"])
     finally:
         world.close()
-    outside = cfg.wlimit or "wp" in applied or "wr" in applied      # back-pressure: not in the model
+    outside = is_outside_model(cfg, applied)      # back-pressure / oversized messages: not in the model
     ms = model_snaps(exe, [(cfg, applied)])[0] if (ok and not outside) else []
     want = case.get("kind")
     hits = [(k, t) for k, t, _, _ in viol if want is None or k == want]
     return {"violates": bool(hits), "why": hits[0][1] if hits else None, "all_violations": [(k, t) for k, t, _, _ in viol],
             "applied": applied, "impl": snaps, "model": ms,
             "agree": None if outside else [strip_ghost(a) for a in ms] == snaps,
-            "note": "history uses write-side back-pressure, which the model does not cover (oracle only)" if outside else ""}
+            "note": "history uses write-side back-pressure or a message above the read queue limit, which the model does not cover (oracle only)" if outside else ""}
